@@ -21,7 +21,17 @@ pub struct Ctx {
 pub fn doc_with(field: &str, s: &str) -> MetadataWrapper {
     if let Some(f) = field.strip_prefix("link.") {
         let mut b = LinkMetadataBuilder::new().name("step".to_string());
-        let mut byp = ByProducts::new().set_return_value(0).set_stdout("out\n".to_string()).set_stderr(String::new());
+        // (the one integer of a link - the return value - takes another class per field: zero, negative, extremes)
+        let retval = match f {
+            "name" => 0,
+            "command" => -1,
+            "stdout" => i32::MIN,
+            "stderr" => i32::MAX,
+            "env_key" => -128,
+            "path" => -9,
+            _ => 1,
+        };
+        let mut byp = ByProducts::new().set_return_value(retval).set_stdout("out\n".to_string()).set_stderr(String::new());
         let mut cmd = vec!["tool".to_string(), "--flag".to_string()];
         let mut env: Option<BTreeMap<String, String>> = None;
         let mut prods = artifacts(&json!([{"p": "a.out", "d": "h1"}]));
